@@ -1,6 +1,7 @@
 package c04
 
 import (
+	"context"
 	"fmt"
 	"regexp"
 	"runtime"
@@ -19,7 +20,7 @@ import (
 
 // Op is one scripted call on the ballot box.
 type Op struct {
-	Op    string     `json:"op"` // Vote, Count, SetLast, Voted, Missing
+	Op    string     `json:"op"` // Vote, Count, SetLast, Tick, Voted, Missing
 	B     BallotSpec `json:"b"`
 	H     int        `json:"h"`
 	R     int        `json:"r"`
@@ -34,7 +35,8 @@ type History struct {
 	N       int    `json:"n"`
 	Local   string `json:"local"`
 	T10     int    `json:"t10"`
-	Hold    string `json:"hold"` // "never": a held draw is never released; "zero": released by the next count
+	Hold    string `json:"hold"` // "never": a held draw is released by a Tick only; "zero": also by the next count
+	Ticker  bool   `json:"ticker"` // the box's own ticker runs (holds expired) while the threads run
 	Ops     []Op   `json:"ops"`
 	Threads [][]Op `json:"threads"`
 	Tag     string `json:"tag"`
@@ -347,6 +349,10 @@ func (r *Runner) perform(o Op) M {
 			res["err"] = errStr(err)
 		case "Count":
 			res["ret"] = r.box.Count()
+		case "Tick":
+			r.tick()
+
+			res["ret"] = true
 		case "SetLast":
 			lp, err := isaac.NewLastPoint(base.NewStagePoint(realPoint(o.H, o.R), stageOf(o.S)), o.Maj, o.SC)
 			if err != nil {
@@ -402,6 +408,62 @@ func (r *Runner) perform(o Op) M {
 	return res
 }
 
+// holdOf is the hold duration of a history.
+func holdOf(hist History) time.Duration {
+	if hist.Hold == "zero" {
+		return 0
+	}
+
+	return time.Hour * 24
+}
+
+const tickInterval = 50 * time.Microsecond
+
+// startTicker lets every hold expire and starts the box's own daemon: its ticker calls
+// countHoldeds every tickInterval (Ballotbox.start).
+func (r *Runner) startTicker() func() {
+	r.box.SetCountAfter(0)
+	r.box.SetInterval(tickInterval)
+
+	ctx, cancel := context.WithCancel(context.Background())
+	if err := r.box.Start(ctx); err != nil {
+		cancel()
+		panic(err)
+	}
+
+	return func() {
+		_ = r.box.Stop() // returns when the ticker loop has ended
+		cancel()
+		r.box.SetCountAfter(holdOf(r.hist))
+	}
+}
+
+// waitTicks returns when a ticker of the same period, created after the box's, has fired n
+// times (and at least that many periods have passed): the box's ticker has fired by then.
+func waitTicks(n int) {
+	t := time.NewTicker(tickInterval)
+	defer t.Stop()
+
+	started := time.Now()
+
+	for i := 0; i < n; i++ {
+		<-t.C
+	}
+
+	if d := time.Duration(n)*tickInterval - time.Since(started); d > 0 {
+		time.Sleep(d)
+	}
+}
+
+// tick is one scripted run of the ticker: the holds have expired, the ticker fires (several
+// times), the daemon is stopped again. What countHoldeds emits is read by observe().
+func (r *Runner) tick() {
+	stop := r.startTicker()
+	defer stop()
+
+	waitTicks(8)
+}
+
 func ballotKey(b BallotSpec) string {
 	return fmt.Sprintf("%s|%d|%d|%d|%v|%s|%v|%s", b.Node, b.H, b.R, b.S, b.SC, b.F, sorted(b.Ex), b.EVP.Name)
 }
@@ -425,7 +487,7 @@ func defaults(o Op, res M) M {
 			res["voted"] = false
 			res["err"] = "panic"
 		}
-	case "Count", "SetLast":
+	case "Count", "SetLast", "Tick":
 		if _, ok := res["ret"]; !ok {
 			res["ret"] = false
 		}
@@ -458,19 +520,14 @@ func (r *Runner) RunHistory(hist History) {
 		func(base.Height) (base.Suffrage, bool, error) { return suf, true, nil },
 	)
 
-	switch hist.Hold {
-	case "zero":
-		r.box.SetCountAfter(0)
-	default:
-		r.box.SetCountAfter(time.Hour * 24)
-	}
+	r.box.SetCountAfter(holdOf(hist))
 
 	runtime.Gosched()
 	r.baseline = runtime.NumGoroutine()
 	r.lastPuts = putCounts()
 
 	r.out.Emit(M{"a": "Reset", "nodes": r.env.Names, "local": hist.Local, "t10": hist.T10, "hold": hist.Hold,
-		"conc": len(hist.Threads) > 0, "tag": hist.Tag, "newproc": !r.started})
+		"conc": len(hist.Threads) > 0, "ticker": hist.Ticker && len(hist.Threads) > 0, "tag": hist.Tag, "newproc": !r.started})
 	r.started = true
 
 	for _, o := range hist.Ops {
@@ -503,6 +560,11 @@ func (r *Runner) runThreads(threads [][]Op) {
 
 	start := make(chan struct{})
 
+	stopTicker := func() {}
+	if r.hist.Ticker { // the box's ticker counts held records (holds expired) while the threads vote
+		stopTicker = r.startTicker()
+	}
+
 	for ti := range threads {
 		wg.Add(1)
 
@@ -522,6 +584,12 @@ func (r *Runner) runThreads(threads [][]Op) {
 
 	close(start)
 	wg.Wait()
+
+	if r.hist.Ticker {
+		waitTicks(4) // what the threads left held is counted as well
+	}
+
+	stopTicker()
 	r.settle()
 	// nothing is pending any more: every deferred count has run
 	r.out.Emit(merge(M{"a": "Quiet"}, r.observe()))
